@@ -20,6 +20,7 @@ type faultPlan struct {
 	at    map[string]map[int]error
 	zero  map[string]map[int]bool
 	count map[string]int
+	fired int // how many injected faults were actually returned to the code under test
 }
 
 func newFaultPlan() *faultPlan {
@@ -53,6 +54,7 @@ func (p *faultPlan) hit(op string) (err error, zero bool) {
 	p.count[op]++
 	k := p.count[op]
 	if e, ok := p.at[op][k]; ok {
+		p.fired++
 		return e, false
 	}
 	if p.zero[op][k] {
